@@ -27,8 +27,11 @@ CONSTANTS Alg,      \* "ClosedForm" | "AltMin" | "MinLeakage" | "MaxSINR" | "MMS
           Acts,     \* enabled action names
           Dev       \* [PSetterKeepsDerived, SetPrecodersKeepsFullW, InvalidPCommitted, SetFiltersKeepsFullW : BOOLEAN]
 
-VARIABLES hasF, hasW, wGiven, pKind, solved, cFullF, cWconv, cFullWH, cFullW, ret
-vars == <<hasF, hasW, wGiven, pKind, solved, cFullF, cWconv, cFullWH, cFullW, ret>>
+VARIABLES hasF, hasW, wGiven, pKind, solved, cFullF, cWconv, cFullWH, cFullW, ret,
+          fNs, wNs    \* streams per user of the current precoders / receive filters (they can be installed with another
+                      \* stream count than the last solve used; Ns must follow the precoders)
+vars == <<hasF, hasW, wGiven, pKind, solved, cFullF, cWconv, cFullWH, cFullW, ret, fNs, wNs>>
+NsSet == {1, 2}
 
 \* snapshot: [f, p, w, h : "cur" | "old"]; a cache is NoneC or a snapshot
 NoneC == [none |-> TRUE]
@@ -37,7 +40,7 @@ AgeIn(c, fld) == IF c = NoneC THEN c ELSE [c EXCEPT ![fld] = "old"]
 
 Init == /\ hasF = FALSE /\ hasW = FALSE /\ wGiven = "none" /\ pKind = "default" /\ solved = FALSE
         /\ cFullF = NoneC /\ cWconv = NoneC /\ cFullWH = NoneC /\ cFullW = NoneC
-        /\ ret = [op |-> "none", a |-> <<>>]
+        /\ ret = [op |-> "none", a |-> <<>>] /\ fNs = 1 /\ wNs = 1
 
 Step(op, a) == ret' = [op |-> op, a |-> a]
 
@@ -56,34 +59,38 @@ Solve(pk) ==
   /\ wGiven' = IF Alg = "AltMin" THEN "W_H" ELSE "W"
   /\ cFullF' = NoneC
   /\ cWconv' = NoneC /\ cFullWH' = NoneC /\ cFullW' = NoneC
+  /\ fNs' = 1 /\ wNs' = 1
   /\ Step("Solve", <<pk>>)
 
 RandomizeF(pk) ==
   /\ "RandomizeF" \in Acts
   /\ hasF' = TRUE /\ pKind' = pk /\ solved' = FALSE
-  /\ ClearF(Dev.SetPrecodersKeepsFullW) /\ UNCHANGED <<hasW, wGiven, cWconv>>
+  /\ ClearF(Dev.SetPrecodersKeepsFullW) /\ UNCHANGED <<hasW, wGiven, cWconv, wNs>>
+  /\ fNs' = 1
   /\ Step("RandomizeF", <<pk>>)
 
 \* set_precoders(F=.. | full_F=.. [, P=..]);  how \in {"F", "fullF"};  pk = "keep" leaves P as it is
-SetPrecoders(how, pk) ==
+SetPrecoders(how, pk, ns) ==
   /\ "SetPrecoders" \in Acts
+  /\ fNs' = ns /\ UNCHANGED wNs
   /\ hasF' = TRUE /\ solved' = FALSE
   /\ pKind' = IF pk = "keep" THEN pKind ELSE pk
   /\ cFullWH' = IF Dev.SetPrecodersKeepsFullW THEN AgeIn(cFullWH, "f") ELSE NoneC
   /\ cFullW'  = IF Dev.SetPrecodersKeepsFullW THEN AgeIn(cFullW, "f") ELSE NoneC
   /\ cFullF' = IF how = "fullF" THEN Fresh ELSE NoneC          \* the given full_F is stored
   /\ UNCHANGED <<hasW, wGiven, cWconv>>
-  /\ Step("SetPrecoders", <<how, pk>>)
+  /\ Step("SetPrecoders", <<how, pk, ns>>)
 
 \* set_receive_filters(W=.. | W_H=..)
-SetFilters(which) ==
+SetFilters(which, ns) ==
   /\ "SetFilters" \in Acts
+  /\ wNs' = ns /\ UNCHANGED fNs
   /\ hasW' = TRUE /\ wGiven' = which /\ solved' = FALSE
   /\ cWconv' = NoneC
   /\ cFullWH' = NoneC
   /\ cFullW' = IF Dev.SetFiltersKeepsFullW THEN AgeIn(cFullW, "w") ELSE NoneC
   /\ UNCHANGED <<hasF, pKind, cFullF>>
-  /\ Step("SetFilters", <<which>>)
+  /\ Step("SetFilters", <<which, ns>>)
 
 \* P = value (valid): everything derived from the power is dropped
 SetP(pk) ==
@@ -92,7 +99,7 @@ SetP(pk) ==
   /\ IF Dev.PSetterKeepsDerived
        THEN /\ cFullF' = AgeIn(cFullF, "p") /\ cFullWH' = AgeIn(cFullWH, "p") /\ cFullW' = AgeIn(cFullW, "p")
        ELSE /\ cFullF' = NoneC /\ cFullWH' = NoneC /\ cFullW' = NoneC
-  /\ UNCHANGED <<hasF, hasW, wGiven, cWconv>>
+  /\ UNCHANGED <<hasF, hasW, wGiven, cWconv, fNs, wNs>>
   /\ Step("SetP", <<pk>>)
 
 \* P = invalid value (negative entry, zero, wrong length): raises, the object is unchanged
@@ -101,7 +108,7 @@ SetPInvalid(kind) ==
   /\ IF Dev.InvalidPCommitted /\ kind = "negvec"
        THEN /\ pKind' = "invalid" /\ cFullF' = AgeIn(cFullF, "p") /\ cFullWH' = AgeIn(cFullWH, "p") /\ cFullW' = AgeIn(cFullW, "p")
        ELSE UNCHANGED <<pKind, cFullF, cFullWH, cFullW>>
-  /\ UNCHANGED <<hasF, hasW, wGiven, solved, cWconv>>
+  /\ UNCHANGED <<hasF, hasW, wGiven, solved, cWconv, fNs, wNs>>
   /\ Step("SetPInvalid", <<kind>>)
 
 \* the channel object is re-randomized: the stored solution belongs to the old channel until the next Solve
@@ -109,7 +116,7 @@ NewChannel ==
   /\ "NewChannel" \in Acts /\ solved
   /\ solved' = FALSE /\ hasF' = FALSE /\ hasW' = FALSE /\ wGiven' = "none"
   /\ cFullF' = NoneC /\ cWconv' = NoneC /\ cFullWH' = NoneC /\ cFullW' = NoneC
-  /\ UNCHANGED pKind
+  /\ UNCHANGED <<pKind, fNs, wNs>>
   /\ Step("NewChannel", <<>>)
 
 \* ---- readers ---------------------------------------------------------------------------
@@ -118,7 +125,7 @@ ReadFullF ==
   /\ "ReadFullF" \in Acts /\ hasF
   /\ cFullF' = FullFVal
   /\ ret' = [op |-> "ReadFullF", a |-> <<>>, src |-> FullFVal]
-  /\ UNCHANGED <<hasF, hasW, wGiven, pKind, solved, cWconv, cFullWH, cFullW>>
+  /\ UNCHANGED <<hasF, hasW, wGiven, pKind, solved, cWconv, cFullWH, cFullW, fNs, wNs>>
 
 \* W (when W_H was given) or W_H (when W was given): the converted filter
 ConvVal == IF cWconv = NoneC THEN Fresh ELSE cWconv
@@ -126,7 +133,7 @@ ReadWconv ==
   /\ "ReadWconv" \in Acts /\ hasW
   /\ cWconv' = ConvVal
   /\ ret' = [op |-> "ReadWconv", a |-> <<>>, src |-> ConvVal]
-  /\ UNCHANGED <<hasF, hasW, wGiven, pKind, solved, cFullF, cFullWH, cFullW>>
+  /\ UNCHANGED <<hasF, hasW, wGiven, pKind, solved, cFullF, cFullWH, cFullW, fNs, wNs>>
 
 \* full_W_H: computed from W_H (converted if need be), the channel and full_F (itself cached)
 Merge(a, b) == [f |-> IF a.f = "old" \/ b.f = "old" THEN "old" ELSE "cur",
@@ -135,28 +142,28 @@ Merge(a, b) == [f |-> IF a.f = "old" \/ b.f = "old" THEN "old" ELSE "cur",
                 h |-> IF a.h = "old" \/ b.h = "old" THEN "old" ELSE "cur"]
 FullWHVal == IF cFullWH = NoneC THEN Merge(ConvVal, FullFVal) ELSE cFullWH
 ReadFullWH ==
-  /\ "ReadFullWH" \in Acts /\ hasF /\ hasW
+  /\ "ReadFullWH" \in Acts /\ hasF /\ hasW /\ fNs = wNs
   /\ cFullWH' = FullWHVal
   /\ IF cFullWH = NoneC THEN cWconv' = ConvVal /\ cFullF' = FullFVal ELSE UNCHANGED <<cWconv, cFullF>>
   /\ ret' = [op |-> "ReadFullWH", a |-> <<>>, src |-> FullWHVal]
-  /\ UNCHANGED <<hasF, hasW, wGiven, pKind, solved, cFullW>>
+  /\ UNCHANGED <<hasF, hasW, wGiven, pKind, solved, cFullW, fNs, wNs>>
 
 FullWVal == IF cFullW = NoneC THEN FullWHVal ELSE cFullW
 ReadFullW ==
-  /\ "ReadFullW" \in Acts /\ hasF /\ hasW
+  /\ "ReadFullW" \in Acts /\ hasF /\ hasW /\ fNs = wNs
   /\ cFullW' = FullWVal
   /\ IF cFullW = NoneC
        THEN /\ cFullWH' = FullWHVal
             /\ IF cFullWH = NoneC THEN cWconv' = ConvVal /\ cFullF' = FullFVal ELSE UNCHANGED <<cWconv, cFullF>>
        ELSE UNCHANGED <<cFullWH, cWconv, cFullF>>
   /\ ret' = [op |-> "ReadFullW", a |-> <<>>, src |-> FullWVal]
-  /\ UNCHANGED <<hasF, hasW, wGiven, pKind, solved>>
+  /\ UNCHANGED <<hasF, hasW, wGiven, pKind, solved, fNs, wNs>>
 
 PKinds == {"default", "scalar", "vector"}
 Next ==
   \/ \E pk \in PKinds : Solve(pk) \/ RandomizeF(pk) \/ SetP(pk)
-  \/ \E how \in {"F", "fullF"}, pk \in PKinds \cup {"keep"} : SetPrecoders(how, pk)
-  \/ \E w \in {"W", "W_H"} : SetFilters(w)
+  \/ \E how \in {"F", "fullF"}, pk \in {"keep", "vector"}, ns \in NsSet : SetPrecoders(how, pk, ns)
+  \/ \E w \in {"W", "W_H"}, ns \in NsSet : SetFilters(w, ns)
   \/ \E k \in {"negvec", "zero", "short"} : SetPInvalid(k)
   \/ NewChannel \/ ReadFullF \/ ReadWconv \/ ReadFullWH \/ ReadFullW
 Spec == Init /\ [][Next]_vars
@@ -172,17 +179,17 @@ PowerValid == pKind # "invalid"
 \* what the property requires of the object in this state (names evaluated by the replay)
 Required == (IF hasF THEN {"UnitNormF", "PowerLeP", "NsMatchesShapes"} ELSE {})
        \cup (IF hasF /\ Alg # "MMSE" THEN {"PowerEqP"} ELSE {})
-       \cup (IF hasF /\ hasW THEN {"OwnChannelIdentity", "FullWIsHermitianOfFullWH"} ELSE {})
+       \cup (IF hasF /\ hasW /\ fNs = wNs THEN {"OwnChannelIdentity", "FullWIsHermitianOfFullWH"} ELSE {})
        \cup (IF solved /\ Alg = "ClosedForm" THEN {"ClosedFormNulls"} ELSE {})
        \cup (IF solved THEN {"SolvedShapes"} ELSE {})
 
 StateRec == [hasF |-> hasF, hasW |-> hasW, wGiven |-> wGiven, pKind |-> pKind, solved |-> solved,
-             cFullF |-> cFullF, cWconv |-> cWconv, cFullWH |-> cFullWH, cFullW |-> cFullW]
+             cFullF |-> cFullF, cWconv |-> cWconv, cFullWH |-> cFullWH, cFullW |-> cFullW, fNs |-> fNs, wNs |-> wNs]
 StateRecP == [hasF |-> hasF', hasW |-> hasW', wGiven |-> wGiven', pKind |-> pKind', solved |-> solved',
-             cFullF |-> cFullF', cWconv |-> cWconv', cFullWH |-> cFullWH', cFullW |-> cFullW']
+             cFullF |-> cFullF', cWconv |-> cWconv', cFullWH |-> cFullWH', cFullW |-> cFullW', fNs |-> fNs', wNs |-> wNs']
 RequiredP == (IF hasF' THEN {"UnitNormF", "PowerLeP", "NsMatchesShapes"} ELSE {})
        \cup (IF hasF' /\ Alg # "MMSE" THEN {"PowerEqP"} ELSE {})
-       \cup (IF hasF' /\ hasW' THEN {"OwnChannelIdentity", "FullWIsHermitianOfFullWH"} ELSE {})
+       \cup (IF hasF' /\ hasW' /\ fNs' = wNs' THEN {"OwnChannelIdentity", "FullWIsHermitianOfFullWH"} ELSE {})
        \cup (IF solved' /\ Alg = "ClosedForm" THEN {"ClosedFormNulls"} ELSE {})
        \cup (IF solved' THEN {"SolvedShapes"} ELSE {})
 Emit == EmitEdge([pre |-> StateRec, post |-> StateRecP, ret |-> ret', req |-> RequiredP])
